@@ -15,7 +15,7 @@ RULE = ('programs of data directives: .byte/.2byte/.4byte/.8byte value lists (ne
 EXPLANATION = ('Theorems in Props/C11.lean: w bytes of v mod 2^(8w) in the configured order, string = one byte per character '
                'after escape processing (+ terminator), fill/zero/zerountil sizes and contents. Correspondence: image.')
 ASSUMPTIONS = ['Python\'s unicode_escape decoder is modelled for the listed escapes only; invalid escapes (\\xZ) are not generated',
-               'a numeric value list does not start with a quoted character and a string contains no unescaped quote of its own kind (finding D30)']
+               'a string contains no unescaped quote of its own kind (that is malformed and rejected)']
 to_impl, to_model = LB.to_impl, LB.to_model
 
 PLAIN = [c for c in (chr(i) for i in range(32, 127)) if c not in '"\'\\']
@@ -96,7 +96,12 @@ def gen_case(rng, tier):
                 else:
                     v = rng.randint(0, (1 << (8 * w)) - 1)
                 loc = [k for k in labels if k.startswith('.')]
-                if loc and rng.random() < 0.5:
+                if rng.random() < 0.15:
+                    # a quoted character as a value (also as the first one of the list, and inside an expression)
+                    ch = ('char', rng.choice(PLAIN))
+                    vals.append(rng.choice([ch, ch, ('bin', '+', ch, ('num', rng.randint(0, 300))), ('bin', '-', ('num', 300), ch)]))
+                    flags.add('char-value')
+                elif loc and rng.random() < 0.5:
                     vals.append(('label', rng.choice(loc)))
                 elif rng.random() < 0.2:
                     vals.append(('label', rng.choice(list(labels) + ['end_lbl'])))
